@@ -232,7 +232,9 @@ Variable fetch : nat -> option X -> list P -> list R.
 (* which parameter set supplies the non-VALUES parameters of a batch statement:
    positional: batch[0][:lower] / batch[0][upper:]   named: parameters[0] (base_parameters) *)
 Definition stmt_ext (c : config) (all : list P) (b : batch P) : option X :=
-  option_map ext (hd_error (if c_named c then all else b_items b)).
+  (* row-at-a-time: replaced_parameters is the parameter set itself, in every paramstyle *)
+  let rowmode := fst (decide_mode (c_sbo c) (c_flags c)) in
+  option_map ext (hd_error (if c_named c && negb rowmode then all else b_items b)).
 
 Record outcome := mkOutcome {
   o_executed : list (batch P);     (* statements sent to the database, in order *)
